@@ -19,6 +19,56 @@ var Inputs = []string{
 	`["abc","aXbxc","","foo bar","xyz"]`,
 	`null`,
 	`{"a":[{"b":[1,2]},{"b":[1,2]}],"b":[{"b":[1,2]},{"b":[1,2]}]}`,
+	// integers beyond int64 are *big.Int: the only mutable number representation
+	`[-4722366482869645213696,4722366482869645213696,-9223372036854775809,9223372036854775808,-1,0,3,18446744073709551616,-18446744073709551616,-4722366482869645213696]`,
+	`{"n":-4722366482869645213696,"p":4722366482869645213696,"a":[-4722366482869645213696,{"b":-36893488147419103232}],"s":-5,"t":7,"c":[1,-36893488147419103232]}`,
+	`-4722366482869645213696`,
+}
+
+// BigVars: variable values holding big integers.
+var BigVars = []string{`-4722366482869645213696`, `[-4722366482869645213696,5,{"a":-36893488147419103232},36893488147419103232]`}
+
+// NumberProbes apply every number native / operator to big integers coming from the input, a variable or a
+// literal of the program, and emit the operand again AFTERWARDS.
+var NumberProbes = []string{
+	`., abs?, .`, `., length?, .`, `., (-(.))?, .`, `[., abs?, .]`, `[.[]? | numbers | abs], .`, `[.[]? | numbers | length], .`,
+	`(map(abs))?, .`, `(map(length))?, .`, `(map(-(.)))?, .`, `(.[0]? | abs?), .[0]?, .`, `.n? as $x | ($x | abs?), $x, .`,
+	`[.. | numbers | abs, length, -(.), . + 0, . - 0, . * 1, . * -1, . / 1, (. % 7), floor, sqrt, fabs, round, ceil, tostring, tojson, @text, @json], .`,
+	`[.. | numbers] | min, max, sort, unique, (add?), (map(-(.)) | sort), (map(abs) | unique), (sort_by(abs)), (group_by(. > 0)), (min_by(abs)), (max_by(length)), .`,
+	`[.. | numbers | . + 1, . - 1, . * 2, . / 2, . % 3, pow(.; 1)?, log2?, significand?, logb?, trunc, infinite, (. == abs), (. < 0)], .`,
+	`[.. | numbers] | (implode?), (map(tostring) | join(",")), (map(tojson)), ([.[] | [.] | @csv]), (map(. as $n | [$n, $n] | add)), .`,
+	`$v, ([$v | .. | numbers | abs]), $v, ([$v | .. | numbers | length]), $v, ([$v | .. | numbers | -(.)]), $v`,
+	`$v as $w | [$w | .. | numbers | abs, length], $w, ($w | (.. | numbers) |= abs)?, $w`,
+	`(.. | numbers) |= abs, .`, `(.. | numbers) |= length, .`, `(.. | numbers) |= -(.), .`, `walk(if type == "number" then abs else . end), .`,
+	`-4722366482869645213696 | ., abs`, `-4722366482869645213696 | ., length, .`, `-4722366482869645213696 | ., -(.), .`,
+	`[-4722366482869645213696, 36893488147419103232] | ., map(abs), map(length), map(-(.)), sort, unique, min, max, add, .`,
+	`{a: -4722366482869645213696} | ., (.a | abs), (.a |= abs), (.a | length), .`,
+	`-4722366482869645213696 as $x | ($x | abs), $x, ($x | length), $x, -$x, $x, ($x + 1), $x, ($x * -1), $x`,
+	`[limit(3; repeat(-4722366482869645213696 | abs, length))]`, `4722366482869645213696 | ., -(.), abs, length, .`,
+	`[-4722366482869645213696] | (implode?), .`, `-4722366482869645213696 | tostring, tojson, ([.] | @csv), (. % 1000), (. / 2), floor, sqrt, .`,
+	`[-4722366482869645213696, -4722366482869645213696] | unique, (.[0] == .[1]), (.[0] | abs), ., (map(length) | add), .`,
+	`[., -36893488147419103232] | (.[1] | abs), ., (map(numbers | abs)), .`, `{n: -36893488147419103232, v: .} | (.n | length), .n, (.. | numbers | abs), .n`,
+	`reduce (-36893488147419103232, 1, -2) as $i (0; . + ($i | abs)), (-36893488147419103232 | abs)`,
+	`foreach (-36893488147419103232, -36893488147419103232) as $i (0; $i | abs; ., $i)`,
+	`def f: -36893488147419103232; f, (f | abs), f, (f | length), f`,
+}
+
+// Steered are (program, input A, input B): the INPUT supplies regex text / flags / format strings, so that the
+// run on B in between moves per-Code state (the regexp cache) before A is run again.
+var Steered = [][3]string{
+	{`test("b"; .)`, `"x"`, `"g"`}, {`test("b"; .)`, `"g"`, `"x"`}, {`try test("b"; .) catch "E"`, `"x"`, `"gi"`},
+	{`"abc" as $s | . as $f | $s | [match("b"; $f)]`, `"x"`, `"g"`}, {`. as $f | "aBc" | test("b"; $f)`, `"q"`, `"i"`},
+	{`. as $f | "aBc" | test("b"; $f)`, `"ig"`, `"gi"`}, {`. as $f | "aBc" | [test("b"; $f), test("b"; "i" + $f), test("b"; $f + "x")?]`, `"g"`, `""`},
+	{`. as $re | "abc" | test($re; "g")`, `"("`, `"a"`}, {`. as $re | "abc" | test($re)`, `"a("`, `"a"`}, {`. as $re | "a.c" | [test($re), test($re; "x")?]`, `"."`, `"\."`},
+	{`. as {re: $r, to: $t, flags: $f} | "aXbxc" | sub($r; $t; $f)`, `{"re":"x","to":"-","flags":"z"}`, `{"re":"x","to":"-","flags":"gi"}`},
+	{`. as {re: $r, to: $t, flags: $f} | "aXbxc" | gsub($r; $t; $f)`, `{"re":"x","to":"-","flags":"i"}`, `{"re":"x","to":"-","flags":"xi"}`},
+	{`[.[] as $f | try ("abc" | test("b"; $f)) catch "E"]`, `["x","g","x"]`, `["g","x"]`}, {`[.[] as $f | try ("abc" | test("b"; $f)) catch "E"]`, `["g","x","gx","xg"]`, `["x"]`},
+	{`. as $p | "aXbxc" | [scan($p; "g")], [scan($p; "x")]?`, `"x"`, `"X"`}, {`. as $p | "a, b" | [splits($p)]`, `", *"`, `"("`}, {`. as $p | "a, b" | split($p; "x")`, `","`, `","`},
+	{`. as $p | "xy" | capture($p)`, `"(?<a>x)"`, `"(?<a>"`}, {`. as $p | "abc" | ltrimstr($p), rtrimstr($p), startswith($p)?`, `"a"`, `1`},
+	{`. as $f | [1, "a"] | format($f)`, `"csv"`, `"nope"`}, {`. as $f | [1, "a"] | format($f)`, `"nope"`, `"json"`}, {`. as $f | 1425599621 | strftime($f)`, `"%Y-%m-%dT%H:%M:%SZ"`, `"%A %q"`},
+	{`. as $f | "2015-03-05T23:51:47Z" | strptime($f) | mktime`, `"%Y-%m-%dT%H:%M:%SZ"`, `"%Y"`}, {`. as $k | {a: 1, b: [2]} | has($k), getpath([$k])`, `"a"`, `0`},
+	{`. as $f | ["aB", "ab"] | map(test("B"; $f))`, `"x"`, `null`}, {`. as $f | ["aB", "ab"] | map(test("B"; $f))`, `null`, `"x"`}, {`. as $f | "aB" | test("b"; $f), test("B"; $f)`, `"xi"`, `"i"`},
+	{`ascii_downcase | test("A"; "i"), test("a"; "x")?`, `"A"`, `"b"`}, {`tojson | test("1"; "g"), test("1"; "n")?`, `[1]`, `[2]`},
 }
 
 // Probes are hand-written programs aimed at sharing hazards: capacity aliasing of constructed arrays,
@@ -143,13 +193,14 @@ var genPaths = []string{
 }
 var genLeaves = []string{
 	`.`, `1`, `"s"`, `null`, `[]`, `{}`, `[1, 2]`, `{a: 1}`, `[.]`, `{a: .}`, `[1, [2]]`, `{a: {b: [1]}}`, `$x`, `$v`, `[.[]?]`, `{a: [1, {b: 2}], c: {d: 3}}`,
-	`[[1], [2, 3]]`, `keys?`, `length`, `type`, `true`, `empty`,
+	`[[1], [2, 3]]`, `keys?`, `length`, `type`, `true`, `empty`, `-4722366482869645213696`, `[-36893488147419103232, 3]`, `{n: -4722366482869645213696}`,
 }
 var genUnary = []string{
 	`add?`, `sort?`, `sort_by(.a?)?`, `group_by(.a?)?`, `unique?`, `unique_by(.a?)?`, `reverse?`, `flatten?`, `flatten(1)?`, `to_entries?`, `from_entries?`,
 	`keys?`, `[.[]?]`, `map(.)?`, `map_values(.)?`, `[paths]`, `transpose?`, `tojson`, `(tojson | fromjson)`, `[..]`, `min_by(.a?)?`, `max_by(.a?)?`,
 	`with_entries(.)?`, `[tostream]`, `first(.[]?)`, `[limit(2; .[]?)]`, `.[:1]?`, `.[1:]?`, `[.[]? | arrays | .[:1]]`, `(.[]? |= .)`, `walk(.)`, `del(.[0]?)`,
 	`del(.a?)`, `delpaths([[0]])?`, `delpaths([["a"]])?`, `(.[0]? |= .)`, `(.a? |= .)`, `[.[]? | objects] `, `[.[]? | arrays]`, `tostring`, `length?`, `not`,
+	`abs?`, `(-(.))?`, `[.. | numbers | abs]`, `[.. | numbers | length, -(.)]`, `(map(abs))?`, `floor?`, `tostring`, `min?`, `max?`, `((.. | numbers) |= abs)`,
 	`[splits("a")?]`, `[match("a"; "g")?]`, `ascii_downcase?`, `explode?`, `[.[]? | strings | test("b")]`, `combinations?`, `[recurse(.[]?; type != "number")]`,
 }
 var genBin = []string{`+`, `*`, `-`, `//`, `,`, `|`, `==`, `<`, `and`}
@@ -215,6 +266,14 @@ func GenJobs(r *Rng, n int, probeInputs int) []Job {
 			in := Inputs[(pi+k*4)%len(Inputs)]
 			js = append(js, Job{Program: withX(p), Input: in, Origin: "probe", Vars: []string{vars[(pi+k)%len(vars)]}})
 		}
+	}
+	for pi, p := range NumberProbes {
+		for k := 0; k < 3; k++ {
+			js = append(js, Job{Program: withX(p), Input: Inputs[len(Inputs)-3+k], Origin: "probe", Vars: []string{BigVars[(pi+k)%len(BigVars)]}})
+		}
+	}
+	for _, st := range Steered {
+		js = append(js, Job{Program: st[0], Input: st[1], Other: st[2], Origin: "probe", Vars: []string{vars[0]}})
 	}
 	for i := 0; i < n; i++ {
 		p := GenProgram(r, 1+r.Intn(3))
